@@ -74,6 +74,9 @@ def run(ctx, build):
     rng = ctx.rng
     lays = [l for l in gc.layouts_for(ctx, 22 if ctx.quick() else 250, dtypes=('f8', 'i4', 'c16'), max_elems=200 if ctx.quick() else 800,
                                       max_dims=3, extra_exhaustive=False) if not gc.more_dims_than_points(l)]
+    # a few longer dimensions, so that unevenly spaced index lists exist
+    for ps, po, ss, so in (([6], [0], [5], [0]), ([2, 5], [0, 1], [6], [0]), ([2, 5], [1, 0], [2, 5], [1, 0]), ([5, 2], [0, 1], [7], [0])):
+        lays.append(gen.Layout(ps, po, ss, so, dtype='f8'))
     acases, ameta, bcases, bmeta = [], [], [], []
     hist = {'layouts': 0, 'slices_2d': 0, 'slices_nd': 0, 'square_2d_results': 0, 'raised': {}, 'malformed_requests': 0, 'two_lists': 0,
             'sel_kinds': {}}
@@ -101,6 +104,9 @@ def run(ctx, build):
             for si in range(per_layout):
                 bad = rng.random() < 0.2
                 sels = [gen_sel(rng, sizes[d], allow_bad=bad) for d in range(len(sizes))]
+                for dd in range(len(sizes)):
+                    if sizes[dd] >= 5 and rng.random() < 0.4:
+                        sels[dd] = ('list', sorted(rng.sample(range(sizes[dd]), rng.randint(3, 4))), rng.choice([list, tuple, np.array]))
                 if rng.random() < 0.25:
                     # aim at a square 2-D result: pick the same number of rows and columns
                     pass
